@@ -77,11 +77,27 @@ Definition spec_query03 (o : qobs) : bool :=
       match reply with None => true | Some _ => false end   (* malformed queries get no DNS reply *)
   end.
 
+(** Through the real servers, whatever the transport of arrival: a well-formed
+    query gets exactly one reply with its ID and question, QR and RA set (the
+    scripted upstreams of these cases use rcodes 0..15 only); over UDP it is
+    not longer than max(512, advertised); a malformed query gets none. *)
+Definition spec_net (o : nobs) : bool :=
+  match o with
+  | NObs tr q reply rlen =>
+    if wellformed q then
+      match reply with
+      | Some r => echoes q r && (negb (tr =? 0) || (rlen <=? size_limit q))
+      | None => false
+      end
+    else match reply with None => true | Some _ => false end
+  end.
+
 Definition spec03 (c : case) : bool :=
   match c with
   | CRun xs ws scripts prog qs => forallb spec_query03 qs
   | CFun _ _ _ _ _ => true
   | CCopy _ _ _ _ _ _ _ _ _ _ => true
+  | CNet xs ws scripts prog ns => forallb spec_net ns
   end.
 Definition spec := spec03.
 
@@ -101,5 +117,12 @@ Definition nontrivial03 (c : case) : bool :=
     && existsb (fun o => match o with QObs _ _ _ _ (OAnswer _) (Some _) _ => true | _ => false end) qs
   | CFun _ _ _ _ _ => false
   | CCopy _ _ _ _ _ _ _ _ _ _ => false
+  | CNet _ _ _ _ ns =>
+    (* all five transports were used and some query is at a boundary: the root name, or a reply of more than 512 bytes *)
+    forallb (fun t => existsb (fun o => match o with NObs tr _ (Some _) _ => tr =? t | _ => false end) ns) [0; 1; 2; 3; 4]
+    && existsb (fun o => match o with
+                         | NObs _ q _ rlen =>
+                           (512 <? rlen) || match m_question q with qu :: _ => (length (qname qu) <=? 1)%nat | [] => false end
+                         end) ns
   end.
 Definition nontrivial := nontrivial03.
